@@ -35,7 +35,10 @@ Proof.
     apply Forall_forall. intros p Hp. apply filter_In in Hp as [Hp _]. rewrite Forall_forall in Hh. now apply Hh.
   - cbn [g_st g_hold tstep ains t_store t_cons]. auto.
   - cbn [g_st g_hold tstep asto t_store t_cons]. split; [now apply pre_ext|auto].
-  - destruct (t_ph (g_st gs)); cbn [g_st g_hold set_store t_store t_cons]; auto; (split; [now apply pre_ext|auto]).
+  - assert (Hm : Forall (fun c => pre X (c_start c)) (map (add_start s) (t_cons (g_st gs)))).
+    { apply Forall_map. eapply Forall_impl; [|exact Hc]. intros c Hp. unfold add_start.
+      destruct (c_fin c); [exact Hp|]. cbn [c_start]. now apply pre_ext. }
+    destruct (t_ph (g_st gs)); cbn [g_st g_hold set_store t_store t_cons]; auto; (split; [now apply pre_ext|auto]).
 Qed.
 
 Lemma grun_GG X sched : forall gs, GG X gs -> GG X (grun gs sched).
@@ -137,6 +140,158 @@ Section FineTorn.
     exists k, d. split; [exact Hc|]. split; [exact Hd|]. split; [exact Hz|].
     assert (HR0 : GR2 p (ginit S0, p)) by (unfold GR2; cbn; auto).
     destruct (gcrun_sim2 p sched _ _ HR0 Hlv Hnes) as [Esim _]. split; [exact Esim|].
+    intros i c Hvis Hfin.
+    destruct (g_exactly_once S0 sched i c Hok Hvis) as (Hout & _).
+    assert (HG : GG S0 (grun (ginit S0) sched)).
+    { apply grun_GG. split; [apply pre_refl|]. split; constructor. }
+    destruct HG as (_ & Hpc & Hph).
+    assert (Hpre : pre S0 (c_start c)).
+    { unfold vis in Hvis. destruct (held (g_hold (grun (ginit S0) sched)) i) eqn:Eh.
+      - injection Hvis as <-. apply held_in in Eh. rewrite Forall_forall in Hph. exact (Hph _ Eh).
+      - apply nth_error_In in Hvis. rewrite Forall_forall in Hpc. now apply Hpc. }
+    destruct Hpre as [tail Ht]. exists tail. split; [exact Ht|].
+    rewrite (Hout Hfin), Ht, rev_app_distr. unfold S0. rewrite rev_involutive, Hl. reflexivity.
+  Qed.
+
+  (* ---- ... and when somebody DOES store before the loader has read the torn file ----
+     (crash, restart, an entry is accepted / another instance appends, then the
+     background load): the record's leading "\n" closes the torn line, so what
+     the loader reads is (the new entries) ++ load_bytes (p ++ "\n"). *)
+  Definition is_store (l : glabel) : bool := match l with GSto _ | GOther _ => true | _ => false end.
+  Definition pre_read (gs : gstate) : bool := match t_ph (g_st gs) with P0 | P2 => true | _ => false end.
+  Definition is_snapshot (gs : gstate) (l : glabel) : bool :=
+    match l, g_loop gs, t_ph (g_st gs) with GL, LNone, P2 => true | _, _, _ => false end.
+  (* the loader's read comes after at least one store *)
+  Fixpoint gearly (b : bool) (gs : gstate) (sched : list glabel) : bool :=
+    match sched with
+    | [] => true
+    | l :: r => (if is_snapshot gs l then b else true) && gearly (b || (is_store l && pre_read gs)) (gstep gs l) r
+    end.
+
+  Definition GR3 (p : bytes) (b : bool) (sf : gstate * bytes) : Prop :=
+    let S0 := rev (load_bytes (p ++ [NL])) in
+    match t_ph (g_st (fst sf)) with
+    | P0 | P2 =>
+        if b then exists rs, rs <> [] /\ Forall valid_rec rs /\ snd sf = p ++ file_of rs /\
+                             t_store (g_st (fst sf)) = S0 ++ map snd rs
+        else snd sf = p /\ t_store (g_st (fst sf)) = S0
+    | _ => exists rs, Forall valid_rec rs /\ snd sf = p ++ file_of rs
+    end.
+
+  Lemma GR3_store p b (gs gs' : gstate) f s :
+    GR3 p b (gs, f) -> forallb is_scalar s = true ->
+    t_ph (g_st gs') = t_ph (g_st gs) -> t_store (g_st gs') = t_store (g_st gs) ++ [s] ->
+    GR3 p (b || pre_read gs) (gs', f ++ store_bytes (ts_of s) s).
+  Proof.
+    unfold GR3, pre_read. cbn [fst snd]. intros HR Hs Ep Es. rewrite Ep.
+    assert (Hvr : valid_rec (ts_of s, s)) by (split; [apply ts_ok|exact Hs]).
+    destruct (t_ph (g_st gs)); rewrite ?orb_true_r, ?orb_false_r.
+    1,2: destruct b;
+      [destruct HR as (rs & Hne & Hv & Hf & Hst); exists (rs ++ [(ts_of s, s)]); split; [destruct rs; discriminate|];
+       split; [apply Forall_app; split; [exact Hv|]; constructor; [exact Hvr|constructor]|];
+       split; [rewrite Hf, file_of_app, file_of_single, <- app_assoc; reflexivity|];
+       rewrite Es, Hst, map_app, <- app_assoc; reflexivity
+      |destruct HR as (Hf & Hst); exists [(ts_of s, s)]; split; [discriminate|];
+       split; [constructor; [exact Hvr|constructor]|]; split; [rewrite Hf, file_of_single; reflexivity|];
+       rewrite Es, Hst; reflexivity].
+    1,2: destruct HR as (rs & Hv & Hf); exists (rs ++ [(ts_of s, s)]); split;
+      [apply Forall_app; split; [exact Hv|]; constructor; [exact Hvr|constructor]
+      |rewrite Hf, file_of_app, file_of_single, <- app_assoc; reflexivity].
+  Qed.
+
+  Lemma gcstep_sim3 p b gs f l :
+    GR3 p b (gs, f) -> glabel_valid l -> (if is_snapshot gs l then b else true) = true ->
+    fst (gcstep ts_of (gs, f) l) = gstep gs l /\
+    GR3 p (b || (is_store l && pre_read gs)) (gcstep ts_of (gs, f) l).
+  Proof.
+    intros HR Hl Hsn.
+    assert (Hkeep : forall gs', t_ph (g_st gs') = t_ph (g_st gs) -> t_store (g_st gs') = t_store (g_st gs) ->
+                    GR3 p (b || false) (gs', f)).
+    { intros gs' Ep Es. rewrite orb_false_r. unfold GR3 in *. cbn [fst snd] in *. rewrite Ep, Es. exact HR. }
+    destruct l as [| |i|i|s|s|s]; cbn [gcstep is_store andb].
+    - destruct (g_loop gs) as [| |[|j r]] eqn:El.
+      + destruct (t_ph (g_st gs)) as [| |[|x q]|] eqn:Ep; cbn [fst snd gstep]; rewrite ?El.
+        * split; [reflexivity|]. apply Hkeep; cbn [g_st]; unfold loader_action; rewrite Ep; cbn [t_ph t_store]; (exact Ep || reflexivity).
+        * (* the loader's read *)
+          unfold is_snapshot in Hsn. rewrite El, Ep in Hsn. subst b.
+          unfold GR3 in HR. cbn [fst snd] in HR. rewrite Ep in HR.
+          destruct HR as (rs & Hne & Hv & Hf & Hst).
+          assert (Hlb : load_bytes f = rev (t_store (g_st gs))).
+          { rewrite Hf, append_after_any, Hst, rev_app_distr, rev_involutive by assumption. reflexivity. }
+          rewrite Hlb. split.
+          -- unfold loader_action, tstep. rewrite Ep. reflexivity.
+          -- unfold GR3. cbn [fst snd g_st t_ph]. exists rs. auto.
+        * split; [reflexivity|]. unfold GR3 in *. cbn [fst snd] in *. unfold loader_action. rewrite Ep in *.
+          cbn [g_st t_ph]. exact HR.
+        * split; [reflexivity|]. unfold GR3 in *. cbn [fst snd] in *. unfold loader_action. rewrite Ep in *.
+          cbn [g_st t_ph]. exact HR.
+        * split; [reflexivity|]. apply Hkeep; cbn [g_st]; unfold loader_action; rewrite Ep; cbn [t_ph t_store]; (exact Ep || reflexivity).
+      + split; [reflexivity|]. cbn [gstep]. rewrite El. apply Hkeep; reflexivity.
+      + split; [reflexivity|]. cbn [gstep]. rewrite El. apply Hkeep; reflexivity.
+      + split; [reflexivity|]. cbn [gstep]. rewrite El. apply Hkeep; reflexivity.
+    - split; [reflexivity|]. cbn [fst snd gstep]. rewrite orb_false_r.
+      unfold GR3 in *. cbn [fst snd g_st] in *. unfold tstep.
+      destruct (t_ph (g_st gs)); cbn [t_ph t_store]; exact HR.
+    - split; [reflexivity|]. cbn [gstep].
+      destruct (nth_error (t_cons (g_st gs)) i); [|apply Hkeep; reflexivity].
+      destruct (held (g_hold gs) i); [apply Hkeep; reflexivity|].
+      destruct (c_fin c); apply Hkeep; reflexivity.
+    - split; [reflexivity|]. apply Hkeep; reflexivity.
+    - split; [reflexivity|]. apply Hkeep; reflexivity.
+    - split; [reflexivity|]. cbn [gstep]. apply (GR3_store p b gs _ f s HR Hl); reflexivity.
+    - split; [reflexivity|]. cbn [gstep]. unfold GR3, pre_read in *. cbn [fst snd] in *.
+      destruct (t_ph (g_st gs)) eqn:Ep.
+      1,2: pose proof (GR3_store p b gs (mkg (set_store (g_st gs) s) (g_loop gs) (g_hold gs) (g_real gs ++ [(false, s)])) f s) as H;
+        unfold GR3, pre_read in H; cbn [fst snd g_st set_store t_ph t_store] in H; rewrite Ep in H;
+        cbn [g_st set_store t_ph]; rewrite Ep; apply H; auto.
+      1,2: rewrite orb_false_r; cbn [g_st]; rewrite Ep;
+        destruct HR as (rs & Hv & Hf); exists (rs ++ [(ts_of s, s)]); split;
+        [apply Forall_app; split; [exact Hv|]; constructor; [split; [apply ts_ok|exact Hl]|constructor]
+        |rewrite Hf, file_of_app, file_of_single, <- app_assoc; reflexivity].
+  Qed.
+
+  Lemma gcrun_sim3 p sched : forall b gs f,
+    GR3 p b (gs, f) -> Forall glabel_valid sched -> gearly b gs sched = true ->
+    fst (gcrun ts_of (gs, f) sched) = grun gs sched.
+  Proof.
+    induction sched as [|l r IH]; intros b gs f HR Hv Hn; [reflexivity|].
+    inversion Hv as [|? ? Hl Hr]; subst. cbn [gearly] in Hn. apply andb_true_iff in Hn as [Hn1 Hn2].
+    unfold gcrun, grun. cbn [fold_left].
+    destruct (gcstep_sim3 p b gs f l HR Hl Hn1) as [E HR'].
+    destruct (gcstep ts_of (gs, f) l) as [gs' f'] eqn:Ec. cbn [fst] in E. subst gs'.
+    apply (IH _ _ _ HR' Hr Hn2).
+  Qed.
+
+  Lemma torn_nl rs p sfx :
+    Forall valid_rec rs -> p ++ sfx = file_of rs ->
+    exists k d, complete_in rs p k /\ (length d <= 1)%nat /\
+      load_bytes (p ++ [NL]) = d ++ rev (firstn k (map snd rs)) /\
+      (p = file_of (firstn k rs) -> d = []).
+  Proof.
+    intros H E.
+    assert (Hv1 : Forall valid_rec [(@nil Z, @nil Z)]).
+    { constructor; [|constructor]. split; [intros []|reflexivity]. }
+    destruct (torn_then_append rs [([], [])] p sfx H Hv1 E) as (k & d & Hc & Hd & Hl & Hz).
+    exists k, d. split; [exact Hc|]. split; [exact Hd|]. split; [|exact Hz].
+    rewrite append_after_any in Hl by (assumption || discriminate). cbn [map rev app snd] in Hl.
+    injection Hl as Hl. exact Hl.
+  Qed.
+
+  Theorem g_torn_early rs0 p sfx sched :
+    Forall valid_rec rs0 -> p ++ sfx = file_of rs0 -> Forall glabel_valid sched ->
+    let S0 := rev (load_bytes (p ++ [NL])) in
+    gok_sched (ginit S0) sched = true -> gearly false (ginit S0) sched = true ->
+    exists k d, complete_in rs0 p k /\ (length d <= 1)%nat /\
+      (p = file_of (firstn k rs0) -> d = []) /\
+      fst (gcrun ts_of (ginit S0, p) sched) = grun (ginit S0) sched /\
+      (forall i c, vis (grun (ginit S0) sched) i = Some c -> c_fin c = true ->
+         exists tail, c_start c = S0 ++ tail /\ c_out c = rev tail ++ d ++ rev (firstn k (map snd rs0))).
+  Proof.
+    intros Hv E Hlv S0 Hok Hear.
+    destruct (torn_nl rs0 p sfx Hv E) as (k & d & Hc & Hd & Hl & Hz).
+    exists k, d. split; [exact Hc|]. split; [exact Hd|]. split; [exact Hz|].
+    assert (HR0 : GR3 p false (ginit S0, p)) by (unfold GR3; cbn; auto).
+    split; [exact (gcrun_sim3 p sched _ _ _ HR0 Hlv Hear)|].
     intros i c Hvis Hfin.
     destruct (g_exactly_once S0 sched i c Hok Hvis) as (Hout & _).
     assert (HG : GG S0 (grun (ginit S0) sched)).
